@@ -788,6 +788,30 @@ def split3(rng, total_parts, offsets=None):
     return None
 
 
+def chunk_sequences(rng, bs, quick, only_multiples=False):
+    """sequences of >= 3 chunk lengths mixing empty, sub-block, block-multiple and unaligned chunks in every order"""
+    kinds = [0, bs, 2 * bs] if only_multiples else ([0, 3, bs, bs + 5] if quick else [0, 1, 3, bs - 1, bs, bs + 1, 2 * bs, 2 * bs + 5])
+    seqs = [[a, b, c] for a in kinds for b in kinds for c in kinds]
+    if not quick and len(seqs) > 300:
+        seqs = [q for q in seqs if rng.random() < 300.0 / len(seqs)]
+    fixed = [[5, 5, 54], [33, 2, 29], [0, 3, 0, 7, 0, 20], [1] * 20, [bs - 1, 1, 1, bs - 1, bs, 1], [7, 0, 0, bs, 2, bs * 2, 9]]
+    if only_multiples:
+        fixed = [[bs, 0, bs, 2 * bs, 0, 0, bs], [0, 0, bs], [2 * bs, bs, 0, bs]]
+    seqs += fixed
+    for _ in range(6 if quick else 150):
+        n = rng.randrange(3, 7)
+        seqs.append([rng.choice(kinds) if only_multiples else rng.choice(kinds + [rng.randrange(0, 3 * bs)]) for _ in range(n)])
+    return seqs
+
+
+def split_by(m, lens):
+    out, o = [], 0
+    for n in lens:
+        out.append(m[o:o + n])
+        o += n
+    return out
+
+
 def sec_modes(S, quick):
     from tlslite.utils import python_aes, python_rc4, python_tripledes
     from tlslite.utils.rijndael import Rijndael
@@ -851,6 +875,17 @@ def sec_modes(S, quick):
                     st0 = ref.rc4_init(key)
                     sec.add('match rc4_init %s with Ok st => rc4_calls st %s | Err _ => false end && rc4_spec_calls (rc4_ksa %s, 0, 0) %s' % (
                         blit(key), call_lit(calls), blit(key), call_lit(calls)), {'unit': 'rc4', 'key': key.hex(), 'msg': m.hex(), 'splits': [off, off2]})
+    # >= 3 calls on one object, chunks empty / sub-block / 16-multiple / unaligned in every order
+    for lens in chunk_sequences(rng, 16, quick):
+        key = rbytes(rng, rng.choice([16, 20, 32]))
+        m = rbytes(rng, sum(lens))
+        obj = python_rc4.new(bytearray(key))
+        got = b''.join(bytes(obj.encrypt(bytearray(x))) for x in split_by(m, lens))
+        want = ref.rc4_crypt(ref.rc4_init(key), m)
+        ctx.count('modes:impl-vs-rfc-python', 1, [('rc4-multi', tuple(min(x, 17) for x in lens[:3]))])
+        if got != want:
+            S.bad('rc4_stream_split:multi', 'Python_RC4: %d calls with chunk lengths %r on one object differ from RC4 of the concatenation' % (len(lens), lens),
+                  {'unit': 'rc4-multi', 'key': key.hex(), 'msg': m.hex(), 'chunks': lens, 'impl': got.hex(), 'rfc': want.hex()})
     for kl in (0, 15, 257):
         k = rbytes(rng, kl)
         _, code = runf(python_rc4.new, bytearray(k))
@@ -965,6 +1000,53 @@ def sec_modes(S, quick):
                         o_ = '(Some %s)' % blk_table_lit(table)
                         sec.add('match ctr_init (borc %s) %s 6 %s with Ok st => ctr_calls (borc %s) st %s | Err _ => false end' % (
                             o_, blit(key), blit(ivb), o_, call_lit(calls)), dict(meta, split=off))
+    # ---------------- streaming with >= 3 calls per object: CTR (any chunking), CBC and 3DES-CBC (block multiples and empty chunks)
+    n_model = 0
+    for lens in chunk_sequences(rng, 16, quick):
+        kl = rng.choice([16, 24, 32])
+        key, m = rbytes(rng, kl), rbytes(rng, sum(lens))
+        ivb = rbytes(rng, rng.choice([16, 16, 12, 8]))
+        t0 = ivb + bytes(16 - len(ivb))
+        want = ref.ossl_ctr(key, t0, m) if m else b''
+        table = {}
+        obj = python_aes.new(bytearray(key), 6, bytearray(ivb))
+        obj.rijndael = RecRijndael(obj.rijndael, key, table)
+        calls, got = [], b''
+        for ptx in split_by(m, lens):
+            v2, c2 = runf(lambda: bytes(obj.encrypt(bytearray(ptx))))
+            calls.append((False, ptx, v2, c2))
+            got += v2 or b''
+        ctx.count('modes:impl-vs-rfc-python', 1, [('ctr-multi', tuple((x % 16 != 0) + (x == 0) * 2 for x in lens[:4]))])
+        if got != want:
+            first = next((i for i in range(min(len(got), len(want))) if got[i] != want[i]), min(len(got), len(want)))
+            S.bad('ctr_stream_split:multi', 'Python_AES_CTR: %d calls with chunk lengths %r on one object differ from one-call CTR of the concatenation '
+                  '(first wrong byte %d)' % (len(lens), lens, first),
+                  {'unit': 'ctr-multi', 'key': key.hex(), 'iv': ivb.hex(), 'msg': m.hex(), 'chunks': lens, 'impl': got.hex(), 'openssl': want.hex()})
+        if n_model < (4 if quick else 25) and len(lens) <= 4 and sum(lens) <= 60:
+            n_model += 1
+            o_ = '(Some %s)' % blk_table_lit(table)
+            sec.add('match ctr_init (borc %s) %s 6 %s with Ok st => ctr_calls (borc %s) st %s | Err _ => false end' % (
+                o_, blit(key), blit(ivb), o_, call_lit(calls)), {'unit': 'ctr-multi', 'key': key.hex(), 'iv': ivb.hex(), 'msg': m.hex(), 'chunks': lens})
+    for cipher in ('aes', '3des'):
+        bs = 16 if cipher == 'aes' else 8
+        for lens in chunk_sequences(rng, bs, quick, only_multiples=True):
+            kl = rng.choice([16, 24, 32] if cipher == 'aes' else [16, 24])
+            key, iv, m = rbytes(rng, kl), rbytes(rng, bs), rbytes(rng, sum(lens))
+            name = ('aes-%d-cbc' % (kl * 8)) if cipher == 'aes' else ('des-ede3-cbc' if kl == 24 else 'des-ede-cbc')
+            want = ref.ossl_cbc(name, key, iv, m) if m else b''
+            mk_obj = (lambda: python_aes.new(bytearray(key), 2, bytearray(iv))) if cipher == 'aes' else (lambda: python_tripledes.new(bytearray(key), bytearray(iv)))
+            obj, dobj = mk_obj(), mk_obj()
+            got, dec = b'', b''
+            for ptx in split_by(m, lens):
+                v2, _c = runf(lambda: bytes(obj.encrypt(bytearray(ptx))))
+                got += v2 or b''
+                d2, _c = runf(lambda: bytes(dobj.decrypt(bytearray(v2 or b''))))
+                dec += d2 or b''
+            ctx.count('modes:impl-vs-rfc-python', 1, [('cbc-multi', cipher, tuple(x // bs for x in lens[:4]))])
+            if got != want or dec != m:
+                S.bad('cbc_stream_split:multi:%s' % cipher, '%s-CBC: %d calls with chunk lengths %r on one object differ from one-call CBC (openssl) / decrypt does not invert'
+                      % (cipher, len(lens), lens),
+                      {'unit': 'cbc-multi', 'cipher': name, 'key': key.hex(), 'iv': iv.hex(), 'msg': m.hex(), 'chunks': lens, 'impl': got.hex(), 'openssl': want.hex()})
     # ---------------- 3DES-CBC (python_tripledes): correspondence only (hand model = CBC spec over the DES-EDE block oracle)
     for kl in (24, 16):
         for nb in ([0, 1, 3] if quick else [0, 1, 2, 3, 5]):
@@ -1163,6 +1245,34 @@ def sec_aesaead(S, quick):
         olit_open = 'None' if ocode else '(Some %s)' % olit(opened)
         sec.add('(%d, %s, %s, %s, %s, %s, %s, %d, %s, %s, %s, %s, %d)' % (
             kind, tl, blit(key), blit(nonce), blit(pt), blit(aad), olit(sealed), scode, blit(n2), blit(c2), blit(a2), olit_open, ocode), meta)
+    # one AEAD object used for >= 3 records in a row (seal and open interleaved), record lengths empty / sub-block / block-multiple / unaligned
+    # in every order: the CTR / CBC-MAC objects inside must carry nothing from one record to the next
+    from tlslite.utils.chacha20_poly1305 import CHACHA20_POLY1305
+    seqs = chunk_sequences(rng, 16, quick)
+    for kind in (0, 16, 8, 'chacha'):
+        name = {0: 'gcm', 16: 'ccm', 8: 'ccm8', 'chacha': 'chachapoly'}[kind]
+        for lens in (seqs[::8] if quick else seqs[::4]):
+            key = rbytes(rng, 32 if kind == 'chacha' else rng.choice([16, 32]))
+            if kind == 'chacha':
+                obj = CHACHA20_POLY1305(bytearray(key), 'python')
+            else:
+                obj, _blk = mk(kind, key, False, None)
+            ecb = lambda b: ref.aes_ecb(key, b)
+            recs = []
+            for i, L in enumerate(lens):
+                nonce, pt, aad = rbytes(rng, 12), rbytes(rng, L), rbytes(rng, rng.choice([0, 5, 13, 16, 21]))
+                want = (ref.aead_chacha_seal(key, nonce, pt, aad) if kind == 'chacha' else
+                        ref.gcm_seal(ecb, nonce, pt, aad) if kind == 0 else ref.ccm_seal(ecb, kind, nonce, pt, aad))
+                sealed, scode = runf(lambda: bytes(obj.seal(bytearray(nonce), bytearray(pt), bytearray(aad))))
+                res, ocode = runf(lambda: obj.open(bytearray(nonce), bytearray(want), bytearray(aad)))
+                recs.append({'nonce': nonce.hex(), 'pt': pt.hex(), 'aad': aad.hex()})
+                if sealed != want or ocode or res is None or bytes(res) != pt:
+                    S.bad('%s_seal!=spec:record-sequence' % name, '%s: record %d of the sequence with plaintext lengths %r on ONE object: seal differs from the '
+                          'reference or open does not return the plaintext' % (name, i, lens),
+                          {'unit': 'aead-seq', 'aead': name, 'key': key.hex(), 'records': recs, 'impl': hexs(sealed), 'code': scode, 'spec': want.hex(),
+                           'opened': hexs(bytes(res)) if res is not None and not ocode else None})
+                    break
+            ctx.count('aesaead:impl-vs-spec-python', 1, [(name, 'seq', tuple((x % 16 != 0) + (x == 0) * 2 for x in lens[:3]))])
     # GCM field arithmetic piece by piece: the 4-bit table multiply against the bitwise SP 800-38D multiply
     hs = Section('C09gcmh', ['Base.C09_Oracle', 'Gen.C09_AesModes', 'Gen.C09_GCM', 'Spec.C09_AEAD', 'Toy.C09_ToyOracle'], 'bool', """
 Definition BT := (list (list Z * list Z))%type.
@@ -1351,6 +1461,37 @@ def replay(ctx, path):
         v = b''.join(bytes(obj.encrypt(bytearray(x))) for x in (m[:16 * a], m[16 * a:16 * b], m[16 * b:]))
         code = 0
         want = ref.ossl_cbc('aes-%d-cbc' % (len(K) * 8), K, H(r['iv']), m) if m else b''
+    elif u in ('ctr-multi', 'rc4-multi', 'cbc-multi'):
+        from tlslite.utils import python_aes, python_rc4, python_tripledes
+        m = H(r['msg'])
+        if u == 'ctr-multi':
+            obj = python_aes.new(bytearray(K), 6, bytearray(H(r['iv'])))
+            want = ref.ossl_ctr(K, H(r['iv']) + bytes(16 - len(H(r['iv']))), m) if m else b''
+        elif u == 'rc4-multi':
+            obj = python_rc4.new(bytearray(K))
+            want = ref.rc4_crypt(ref.rc4_init(K), m)
+        else:
+            obj = python_aes.new(bytearray(K), 2, bytearray(H(r['iv']))) if r['cipher'].startswith('aes') else python_tripledes.new(bytearray(K), bytearray(H(r['iv'])))
+            want = ref.ossl_cbc(r['cipher'], K, H(r['iv']), m) if m else b''
+        v, code = runf(lambda: b''.join(bytes(obj.encrypt(bytearray(x))) for x in split_by(m, r['chunks'])))
+    elif u == 'aead-seq':
+        from tlslite.utils import python_aesgcm, python_aesccm
+        from tlslite.utils.chacha20_poly1305 import CHACHA20_POLY1305
+        a = r['aead']
+        obj = (CHACHA20_POLY1305(bytearray(K), 'python') if a == 'chachapoly' else python_aesgcm.new(bytearray(K)) if a == 'gcm' else
+               python_aesccm.new(bytearray(K), 16 if a == 'ccm' else 8))
+        ecb = lambda b: ref.aes_ecb(K, b)      # noqa: E731
+        v, want, code = [], [], 0
+        for rec in r['records']:
+            n_, p_, a_ = H(rec['nonce']), H(rec['pt']), H(rec['aad'])
+            w = (ref.aead_chacha_seal(K, n_, p_, a_) if a == 'chachapoly' else ref.gcm_seal(ecb, n_, p_, a_) if a == 'gcm' else
+                 ref.ccm_seal(ecb, 16 if a == 'ccm' else 8, n_, p_, a_))
+            s_, c_ = runf(lambda: bytes(obj.seal(bytearray(n_), bytearray(p_), bytearray(a_))))
+            o_, c2_ = runf(lambda: obj.open(bytearray(n_), bytearray(w), bytearray(a_)))
+            v.append((hexs(s_), None if o_ is None else bytes(o_).hex()))
+            want.append((w.hex(), p_.hex()))
+        print('impl:', v, '\nspec:', want)
+        return 0 if v == want else 1
     elif u == 'live-exporter':
         import c09_live
         hits = []
